@@ -48,13 +48,15 @@ INPUTS = {
               "USE solution 1\nREACTION 1\n NaCl 1\n 1 mmol\nEND\n",
     "advect": SEL2 + "SOLUTION 0\n Na 1\n Cl 1\nSOLUTION 1-3\n K 1\n N(5) 1\nADVECTION\n -cells 3\n -shifts 4\n -punch_frequency 1\n -print_frequency 2\nPRINT\n -selected_output true\nEND\n",
 }
+# run with no database loaded: the call fails at once, but the sinks that are on still get (the same) bytes
+NODB = "SOLUTION 1\n Na 1\n Cl 1\nEND\n"
 SECOND = "USE solution 1\nREACTION 1\n NaCl 1\n 0.5 mmol\nEND\nDUMP\n -all\nEND\n"
 SECOND_AFTER_ERROR = "SOLUTION 1\n Na 1\n Cl 1\nEND\n" + SECOND
 
 
 def gen_cases(ctx):
     quick = ctx.tier == "quick"
-    inputs = list(INPUTS)
+    inputs = list(INPUTS) + ["nodb"]
     rng = ctx.rng("cases")
     # thorough: every input x switch combination is repeated with 8 different draws of the random part (error / selected-output switches, current numbers,
     # file-name mode, and all switches of the second call).  Seeded multi-simulation inputs were tried and dropped: they may switch punching off (PRINT
@@ -75,13 +77,18 @@ def gen_cases(ctx):
             sel2 = {str(n): [int(r.random() < 0.6), int(r.random() < 0.6)] for n in (1, 3)}
             i += 1
             c = dict(id="%s-%03d%s" % (name, m, "" if var == 0 else "-v%d" % var), input=name, sw=sw, sel=sel, sw2=sw2, sel2=sel2, custom=int(r.random() < 0.5),
-                     cur=r.choice([1, 3, 1, 8]), cur2=r.choice([1, 3]))
+                     cur=r.choice([1, 3, 1, 8]), cur2=r.choice([1, 3]),
+                     deliver=[r.choice(["run", "run", "runfile", "acc"]) for _ in range(2)])
+            if name == "nodb":
+                c["nodb"] = r.choice(["never", "failed-load"])
             if name.startswith("gen"):
                 c["gseed"] = ctx.rng("g", name).randrange(1 << 30)
             yield c
 
 
 def _input(ctx, case):
+    if case["input"] == "nodb":
+        return NODB
     if case["input"] in INPUTS:
         return INPUTS[case["input"]]
     return SEL2 + gens.multi_sim_input(ctx.rng("gen", case["gseed"]), selout=False) + "DUMP\n -all\nEND\n"      # the generated part brings no selected-output blocks of its own: the oracle knows numbers 1 and 3
@@ -98,7 +105,10 @@ def run_case(ctx, case):
     text = _input(ctx, case)
     s = core.Script()
     s.raw("new a")
-    s.raw("loaddb a " + os.path.join(ctx.db, "phreeqc.dat"))
+    if case["input"] != "nodb":
+        s.raw("loaddb a " + os.path.join(ctx.db, "phreeqc.dat"))
+    elif case["nodb"] == "failed-load":
+        s.raw("loaddb a /nonexistent_dir/none.dat")
     for k, v in _names(case["custom"]).items():
         s.raw("set a %sFileName %s" % (k, v))
     selnames = {}
@@ -114,12 +124,22 @@ def run_case(ctx, case):
                 s.raw("set a SelectedOutputFileName sel%s.txt" % n)
         s.raw("cur a %d" % cur)
 
+    def deliver(how, content):
+        if how == "runfile":
+            s.raw("writefile unit.pqi %s" % s.text(content))
+            s.raw("runfile a unit.pqi")
+        elif how == "acc":
+            s.raw("acc a %s" % s.text(content))
+            s.raw("runacc a")
+        else:
+            s.run("a", content)
+
     apply(case["sw"], case["sel"], case["cur"])
     s.raw("tag call1")
-    s.run("a", text)
+    deliver(case.get("deliver", ["run", "run"])[0], text)
     s.raw("snap a oldewsfLgc")
     s.raw("tag reload")
-    if case["input"] == "error":
+    if case["input"] in ("error", "nodb"):
         s.raw("loaddb a " + os.path.join(ctx.db, "phreeqc.dat"))
     # remove sink files so that 'a disabled sink receives nothing' is observable for call 2
     s.raw("tag clean")
@@ -128,7 +148,7 @@ def run_case(ctx, case):
         s.raw("rm " + f)
     apply(case["sw2"], case["sel2"], case["cur2"])
     s.raw("tag call2")
-    s.run("a", SECOND_AFTER_ERROR if case["input"] == "error" else SECOND)
+    deliver(case.get("deliver", ["run", "run"])[1], SECOND_AFTER_ERROR if case["input"] in ("error", "nodb") else SECOND)
     s.raw("snap a oldewsfLgc")
     s.raw("ls .")
     s.raw("del a")
@@ -139,7 +159,7 @@ def run_case(ctx, case):
             return Result(INCONCLUSIVE, reason="%s: %s" % (pf[0], (pf[2] or "")[:200]))
         return Result(VIOLATED, key="C09/%s" % pf[1], what="process ended abnormally (%s): %s" % (pf[0], pf[2][:2500]))
     snaps = [r for r in run["records"] if r["ev"] == "ret" and r["op"] == "snap"]
-    runs = [r for r in run["records"] if r["ev"] == "ret" and r["op"] == "run"]
+    runs = [r for r in run["records"] if r["ev"] == "ret" and r["op"] in ("run", "runfile", "runacc")]
     if len(snaps) != 2 or len(runs) != 2:
         return Result(INCONCLUSIVE, reason="harness: incomplete log")
     findings = []
